@@ -3,6 +3,7 @@
    stages of Downscale.avg_gen, then the block-sum identity on the exact grid.
    Together with AverageProofs.avg_exact_units this gives C07 avg_exact. *)
 From Coq Require Import ZArith QArith Bool List Arith Lia.
+From Coq Require Import SpecFloat.
 From NGS Require Import Val DType FloatModel Convert ConvertProofs ConvertFloatProofs Downscale DownscaleProofs AverageProofs.
 Import ListNotations.
 Close Scope Q_scope.
@@ -822,3 +823,390 @@ Proof.
   apply avg_exact; try assumption. apply small_uint_is_uint. exact Hd.
   eapply Forall4_impl; [|exact HV]. intros v Hv. apply (small_uint_small_val dt); assumption.
 Qed.
+
+(* ======================================================================== *)
+(* Non-finite voxels through the averaging downscaler: the per-voxel value of
+   the separable pairwise averaging as a pairing tree of padded reads, generic in
+   the element type and the averaging function (a generic copy of the
+   composition above, which is specialised to the exact grid), then
+   float64/float32: a block of +inf (-inf) voxels averages to +inf (-inf); a NaN
+   contributor gives NaN. *)
+Close Scope Z_scope.
+
+Section ComposeGen.
+Context {A : Type} (f : A -> A -> A) (d : A).
+Variable oc : option A.
+(* padding with a constant is only transparent when averaging it with itself gives it back *)
+Hypothesis Hsame : forall c, oc = Some c -> f c c = c.
+
+Notation g3 := (get3 d).
+
+(* fully padded read of a volume of shape (nz, ny, nx): beyond the border the
+   outside value, or (edge mode) the clamped position *)
+Definition PGa (vol : list (list (list A))) (nz ny nx : nat) (z y x : nat) : A :=
+  match oc with
+  | Some c0 => if ((z <? nz) && (y <? ny) && (x <? nx))%nat then g3 vol z y x else c0
+  | None => g3 vol (pad_index nz z) (pad_index ny y) (pad_index nx x)
+  end.
+
+Lemma hz_rect3a : forall nz ny nx vol, rect3 nz ny nx vol -> rect3 (cdiv nz 2) ny nx (hz f oc vol).
+Proof.
+  intros nz ny nx vol Hr.
+  assert (R4 : rect4 1 nz ny nx [vol]) by (split; [reflexivity | constructor; [exact Hr | constructor]]).
+  destruct (halve_z_rect f oc 1 nz ny nx [vol] R4) as [_ F]. cbn in F. inversion F; subst. assumption.
+Qed.
+Lemma hy_rect3a : forall nz ny nx vol, rect3 nz ny nx vol -> rect3 nz (cdiv ny 2) nx (hy f oc vol).
+Proof.
+  intros nz ny nx vol Hr.
+  assert (R4 : rect4 1 nz ny nx [vol]) by (split; [reflexivity | constructor; [exact Hr | constructor]]).
+  destruct (halve_y_rect f oc 1 nz ny nx [vol] R4) as [_ F]. cbn in F. inversion F; subst. assumption.
+Qed.
+Lemma hx_rect3a : forall nz ny nx vol, rect3 nz ny nx vol -> rect3 nz ny (cdiv nx 2) (hx f oc vol).
+Proof.
+  intros nz ny nx vol Hr.
+  assert (R4 : rect4 1 nz ny nx [vol]) by (split; [reflexivity | constructor; [exact Hr | constructor]]).
+  destruct (halve_x_rect f oc 1 nz ny nx [vol] R4) as [_ F]. cbn in F. inversion F; subst. assumption.
+Qed.
+
+
+
+
+
+(* the padded read of a stage along the halved axis is the full padded read *)
+Lemma rd_is_PG_za : forall vol nz ny nx i y x, (1 <= nz)%nat -> (y < ny)%nat -> (x < nx)%nat ->
+  (if (i <? nz)%nat then g3 vol i y x else fill0 oc (g3 vol (nz - 1) y x)) = PGa vol nz ny nx i y x.
+Proof.
+  intros vol nz ny nx i y x Hn Hy Hx. unfold PGa.
+  apply Nat.ltb_lt in Hy. apply Nat.ltb_lt in Hx.
+  destruct oc as [c0|]; cbn [fill0].
+  - rewrite Hy, Hx. destruct (i <? nz)%nat; reflexivity.
+  - apply Nat.ltb_lt in Hy. apply Nat.ltb_lt in Hx.
+    rewrite (pad_index_id ny y Hy), (pad_index_id nx x Hx). unfold pad_index.
+    destruct (i <? nz)%nat; reflexivity.
+Qed.
+
+Variable fx fy fz : nat.
+Hypothesis Hfx : fx = 1%nat \/ fx = 2%nat.
+Hypothesis Hfy : fy = 1%nat \/ fy = 2%nat.
+Hypothesis Hfz : fz = 1%nat \/ fz = 2%nat.
+Variable nz ny nx : nat.
+Variable vol : list (list (list A)).
+Hypothesis Hvol : rect3 nz ny nx vol.
+Hypothesis Hnz : (1 <= nz)%nat.
+Hypothesis Hny : (1 <= ny)%nat.
+Hypothesis Hnx : (1 <= nx)%nat.
+
+Definition V1a := if (fz =? 2)%nat then hz f oc vol else vol.
+Definition V2a := if (fy =? 2)%nat then hy f oc V1a else V1a.
+Definition V3a := if (fx =? 2)%nat then hx f oc V2a else V2a.
+Definition n1a := cdiv nz fz.
+Definition n2a := cdiv ny fy.
+Definition n3a := cdiv nx fx.
+
+Definition G0a (z y x : nat) : A := PGa vol nz ny nx z y x.
+Definition G1a (z y x : nat) : A :=
+  if (fz =? 2)%nat then f (G0a (2 * z) y x) (G0a (2 * z + 1) y x) else G0a z y x.
+Definition G2a (z y x : nat) : A :=
+  if (fy =? 2)%nat then f (G1a z (2 * y) x) (G1a z (2 * y + 1) x) else G1a z y x.
+Definition G3a (z y x : nat) : A :=
+  if (fx =? 2)%nat then f (G2a z y (2 * x)) (G2a z y (2 * x + 1)) else G2a z y x.
+
+Lemma V1_recta : rect3 n1a ny nx V1a.
+Proof.
+  unfold V1a, n1a. destruct Hfz as [-> | ->]; cbn [Nat.eqb].
+  rewrite cdiv_1. exact Hvol. apply hz_rect3a. exact Hvol.
+Qed.
+Lemma V2_recta : rect3 n1a n2a nx V2a.
+Proof.
+  unfold V2a, n2a. destruct Hfy as [-> | ->]; cbn [Nat.eqb].
+  rewrite cdiv_1. exact V1_recta. apply hy_rect3a. exact V1_recta.
+Qed.
+
+Lemma n2_posa : (1 <= n2a)%nat.
+Proof. unfold n2a. apply (cdiv_lt ny fy 0); lia. Qed.
+
+Lemma oc_casesa : (exists c0, oc = Some c0) \/ oc = None.
+Proof. destruct oc; eauto. Qed.
+
+Lemma PG_somea : forall c0, oc = Some c0 -> forall v m1 m2 m3 z y x,
+  PGa v m1 m2 m3 z y x = if ((z <? m1) && (y <? m2) && (x <? m3))%nat then g3 v z y x else c0.
+Proof. intros c0 E v m1 m2 m3 z y x. unfold PGa. rewrite E. reflexivity. Qed.
+
+Lemma PG_nonea : oc = None -> forall v m1 m2 m3 z y x,
+  PGa v m1 m2 m3 z y x = g3 v (pad_index m1 z) (pad_index m2 y) (pad_index m3 x).
+Proof. intros E v m1 m2 m3 z y x. unfold PGa. rewrite E. reflexivity. Qed.
+
+Lemma n1_posa : (1 <= n1a)%nat.
+Proof. unfold n1a. apply (cdiv_lt nz fz 0); lia. Qed.
+
+(* stage z *)
+Lemma C1a : forall z y x, (z < n1a)%nat -> PGa V1a n1a ny nx z y x = G1a z y x.
+Proof.
+  intros z y x Hz. unfold G1a, V1a, n1a in *. destruct Hfz as [E | E]; rewrite E in *; cbn [Nat.eqb].
+  - rewrite cdiv_1 in *. reflexivity.
+  - destruct oc_casesa as [[c0 Eo] | Eo].
+    + rewrite (PG_somea c0 Eo).
+      replace (z <? cdiv nz 2)%nat with true by (symmetry; apply Nat.ltb_lt; exact Hz). cbn [andb].
+      destruct ((y <? ny) && (x <? nx))%nat eqn:Eyx.
+      * apply andb_prop in Eyx. destruct Eyx as [Ey Ex]. apply Nat.ltb_lt in Ey. apply Nat.ltb_lt in Ex.
+        rewrite (hz_get f oc d nz ny nx vol z y x Hvol Hz Ey Ex).
+        rewrite !(rd_is_PG_za vol nz ny nx _ y x Hnz Ey Ex). reflexivity.
+      * unfold G0a. rewrite !(PG_somea c0 Eo).
+        replace (((2 * z <? nz) && (y <? ny) && (x <? nx))%nat) with false
+          by (rewrite <- andb_assoc, Eyx, andb_false_r; reflexivity).
+        replace (((2 * z + 1 <? nz) && (y <? ny) && (x <? nx))%nat) with false
+          by (rewrite <- andb_assoc, Eyx, andb_false_r; reflexivity).
+        symmetry. apply (Hsame c0 Eo).
+    + rewrite (PG_nonea Eo). rewrite (pad_index_id _ z Hz).
+      pose proof (pad_index_lt ny y Hny) as Hy'. pose proof (pad_index_lt nx x Hnx) as Hx'.
+      rewrite (hz_get f oc d nz ny nx vol z _ _ Hvol Hz Hy' Hx').
+      rewrite !(rd_is_PG_za vol nz ny nx _ _ _ Hnz Hy' Hx').
+      unfold G0a. rewrite !(PG_nonea Eo).
+      rewrite !(pad_index_id ny (pad_index ny y)), !(pad_index_id nx (pad_index nx x)) by assumption.
+      reflexivity.
+Qed.
+
+(* the padded read along y of a stage (z and x in range) *)
+Lemma rd_is_PG_ya : forall v m1 m2 m3 z i x, (1 <= m2)%nat -> (z < m1)%nat -> (x < m3)%nat ->
+  (if (i <? m2)%nat then g3 v z i x else fill0 oc (g3 v z (m2 - 1) x)) = PGa v m1 m2 m3 z i x.
+Proof.
+  intros v m1 m2 m3 z i x Hn Hz Hx.
+  destruct oc_casesa as [[c0 Eo] | Eo].
+  - rewrite (PG_somea c0 Eo). rewrite Eo. cbn [fill0].
+    apply Nat.ltb_lt in Hz. apply Nat.ltb_lt in Hx. rewrite Hz, Hx. cbn [andb].
+    rewrite andb_true_r. destruct (i <? m2)%nat; reflexivity.
+  - rewrite (PG_nonea Eo). rewrite Eo. cbn [fill0].
+    rewrite (pad_index_id m1 z Hz), (pad_index_id m3 x Hx). unfold pad_index.
+    destruct (i <? m2)%nat; reflexivity.
+Qed.
+
+Lemma rd_is_PG_xa : forall v m1 m2 m3 z y i, (1 <= m3)%nat -> (z < m1)%nat -> (y < m2)%nat ->
+  (if (i <? m3)%nat then g3 v z y i else fill0 oc (g3 v z y (m3 - 1))) = PGa v m1 m2 m3 z y i.
+Proof.
+  intros v m1 m2 m3 z y i Hn Hz Hy.
+  destruct oc_casesa as [[c0 Eo] | Eo].
+  - rewrite (PG_somea c0 Eo). rewrite Eo. cbn [fill0].
+    apply Nat.ltb_lt in Hz. apply Nat.ltb_lt in Hy. rewrite Hz, Hy. cbn [andb].
+    destruct (i <? m3)%nat; reflexivity.
+  - rewrite (PG_nonea Eo). rewrite Eo. cbn [fill0].
+    rewrite (pad_index_id m1 z Hz), (pad_index_id m2 y Hy). unfold pad_index.
+    destruct (i <? m3)%nat; reflexivity.
+Qed.
+
+(* stage y *)
+Lemma C2a : forall z y x, (z < n1a)%nat -> (y < n2a)%nat -> PGa V2a n1a n2a nx z y x = G2a z y x.
+Proof.
+  intros z y x Hz Hy. unfold G2a, V2a, n2a in *. destruct Hfy as [E | E]; rewrite E in *; cbn [Nat.eqb].
+  - rewrite cdiv_1 in *. apply C1a. exact Hz.
+  - destruct oc_casesa as [[c0 Eo] | Eo].
+    + rewrite (PG_somea c0 Eo).
+      replace (z <? n1a)%nat with true by (symmetry; apply Nat.ltb_lt; exact Hz).
+      replace (y <? cdiv ny 2)%nat with true by (symmetry; apply Nat.ltb_lt; exact Hy). cbn [andb].
+      destruct (x <? nx)%nat eqn:Ex.
+      * apply Nat.ltb_lt in Ex.
+        rewrite (hy_get f oc d n1a ny nx V1a z y x V1_recta Hz Hy Ex).
+        rewrite !(rd_is_PG_ya V1a n1a ny nx z _ x Hny Hz Ex). rewrite !C1a by exact Hz. reflexivity.
+      * rewrite <- !C1a by exact Hz. rewrite !(PG_somea c0 Eo). rewrite Ex, !andb_false_r.
+        symmetry. apply (Hsame c0 Eo).
+    + rewrite (PG_nonea Eo). rewrite (pad_index_id _ z Hz), (pad_index_id _ y Hy).
+      pose proof (pad_index_lt nx x Hnx) as Hx'.
+      rewrite (hy_get f oc d n1a ny nx V1a z y _ V1_recta Hz Hy Hx').
+      rewrite !(rd_is_PG_ya V1a n1a ny nx z _ _ Hny Hz Hx').
+      rewrite <- !C1a by exact Hz. rewrite !(PG_nonea Eo).
+      rewrite !(pad_index_id nx (pad_index nx x)) by assumption. reflexivity.
+Qed.
+
+(* stage x: the final array *)
+Lemma C3a : forall z y x, (z < n1a)%nat -> (y < n2a)%nat -> (x < n3a)%nat -> g3 V3a z y x = G3a z y x.
+Proof.
+  intros z y x Hz Hy Hx. unfold G3a, V3a, n3a in *. destruct Hfx as [E | E]; rewrite E in *; cbn [Nat.eqb].
+  - rewrite cdiv_1 in *. rewrite <- (C2a z y x Hz Hy).
+    rewrite <- (rd_is_PG_xa V2a n1a n2a nx z y x Hnx Hz Hy).
+    replace (x <? nx)%nat with true by (symmetry; apply Nat.ltb_lt; exact Hx). reflexivity.
+  - rewrite (hx_get f oc d n1a n2a nx V2a z y x V2_recta Hz Hy Hx).
+    rewrite !(rd_is_PG_xa V2a n1a n2a nx z y _ Hnx Hz Hy). rewrite !C2a by assumption. reflexivity.
+Qed.
+
+End ComposeGen.
+
+(* ---- predicates through the pairing tree ------------------------------------ *)
+
+Close Scope Z_scope.
+
+Section Tree.
+Context {A : Type} (f : A -> A -> A) (d : A) (oc : option A).
+Variable fx fy fz : nat.
+Hypothesis Hfx : fx = 1 \/ fx = 2.
+Hypothesis Hfy : fy = 1 \/ fy = 2.
+Hypothesis Hfz : fz = 1 \/ fz = 2.
+Variable nz ny nx : nat.
+Variable vol : list (list (list A)).
+
+Notation G0 := (G0a d oc nz ny nx vol).
+Notation G1 := (G1a f d oc fz nz ny nx vol).
+Notation G2 := (G2a f d oc fy fz nz ny nx vol).
+Notation G3 := (G3a f d oc fx fy fz nz ny nx vol).
+
+(* P is closed under the averaging function: all contributors in P => result in P *)
+Variable P : A -> Prop.
+Hypothesis Pf : forall a b, P a -> P b -> P (f a b).
+
+Lemma tree_all : forall z y x,
+  (forall dz dy dx, dz < fz -> dy < fy -> dx < fx -> P (G0 (z * fz + dz) (y * fy + dy) (x * fx + dx))) ->
+  P (G3 z y x).
+Proof.
+  intros z y x H.
+  assert (L1 : forall y' x', (forall dz, dz < fz -> P (G0 (z * fz + dz) y' x')) -> P (G1 z y' x')).
+  { intros y' x' H1. unfold G1a. destruct Hfz as [E | E]; rewrite E in *; cbn [Nat.eqb].
+    - specialize (H1 0 ltac:(lia)). rewrite Nat.mul_1_r, Nat.add_0_r in H1. exact H1.
+    - apply Pf.
+      + specialize (H1 0 ltac:(lia)). replace (z * 2 + 0) with (2 * z) in H1 by lia. exact H1.
+      + specialize (H1 1 ltac:(lia)). replace (z * 2 + 1) with (2 * z + 1) in H1 by lia. exact H1. }
+  assert (L2 : forall x', (forall dy, dy < fy -> P (G1 z (y * fy + dy) x')) -> P (G2 z y x')).
+  { intros x' H2. unfold G2a. destruct Hfy as [E | E]; rewrite E in *; cbn [Nat.eqb].
+    - specialize (H2 0 ltac:(lia)). rewrite Nat.mul_1_r, Nat.add_0_r in H2. exact H2.
+    - apply Pf.
+      + specialize (H2 0 ltac:(lia)). replace (y * 2 + 0) with (2 * y) in H2 by lia. exact H2.
+      + specialize (H2 1 ltac:(lia)). replace (y * 2 + 1) with (2 * y + 1) in H2 by lia. exact H2. }
+  assert (L3 : (forall dx, dx < fx -> P (G2 z y (x * fx + dx))) -> P (G3 z y x)).
+  { intros H3. unfold G3a. destruct Hfx as [E | E]; rewrite E in *; cbn [Nat.eqb].
+    - specialize (H3 0 ltac:(lia)). rewrite Nat.mul_1_r, Nat.add_0_r in H3. exact H3.
+    - apply Pf.
+      + specialize (H3 0 ltac:(lia)). replace (x * 2 + 0) with (2 * x) in H3 by lia. exact H3.
+      + specialize (H3 1 ltac:(lia)). replace (x * 2 + 1) with (2 * x + 1) in H3 by lia. exact H3. }
+  apply L3. intros dx Hdx. apply L2. intros dy Hdy. apply L1. intros dz Hdz. apply H; assumption.
+Qed.
+
+(* Q is absorbing: one contributor in Q => result in Q *)
+Variable Q : A -> Prop.
+Hypothesis Qf : forall a b, Q a \/ Q b -> Q (f a b).
+
+Lemma tree_any : forall z y x,
+  (exists dz dy dx, dz < fz /\ dy < fy /\ dx < fx /\ Q (G0 (z * fz + dz) (y * fy + dy) (x * fx + dx))) ->
+  Q (G3 z y x).
+Proof.
+  intros z y x (dz & dy & dx & Hdz & Hdy & Hdx & H).
+  assert (L1 : Q (G1 z (y * fy + dy) (x * fx + dx))).
+  { unfold G1a. destruct Hfz as [E | E]; rewrite E in *; cbn [Nat.eqb].
+    - replace dz with 0 in H by lia. rewrite Nat.mul_1_r, Nat.add_0_r in H. exact H.
+    - apply Qf. assert (dz = 0 \/ dz = 1) as [-> | ->] by lia.
+      + left. replace (2 * z) with (z * 2 + 0) by lia. exact H.
+      + right. replace (2 * z + 1) with (z * 2 + 1) by lia. exact H. }
+  assert (L2 : Q (G2 z y (x * fx + dx))).
+  { unfold G2a. destruct Hfy as [E | E]; rewrite E in *; cbn [Nat.eqb].
+    - replace dy with 0 in L1 by lia. rewrite Nat.mul_1_r, Nat.add_0_r in L1. exact L1.
+    - apply Qf. assert (dy = 0 \/ dy = 1) as [-> | ->] by lia.
+      + left. replace (2 * y) with (y * 2 + 0) by lia. exact L1.
+      + right. replace (2 * y + 1) with (y * 2 + 1) by lia. exact L1. }
+  unfold G3a. destruct Hfx as [E | E]; rewrite E in *; cbn [Nat.eqb].
+  - replace dx with 0 in L2 by lia. rewrite Nat.mul_1_r, Nat.add_0_r in L2. exact L2.
+  - apply Qf. assert (dx = 0 \/ dx = 1) as [-> | ->] by lia.
+    + left. replace (2 * x) with (x * 2 + 0) by lia. exact L2.
+    + right. replace (2 * x + 1) with (x * 2 + 1) by lia. exact L2.
+Qed.
+
+End Tree.
+
+(* ---- float64 averaging and the float32 path ----------------------------------- *)
+
+Lemma favg_inf : forall s, favg (S754_infinity s) (S754_infinity s) = S754_infinity s.
+Proof. intros [|]; vm_compute; reflexivity. Qed.
+
+Lemma favg_nan : forall a b, a = S754_nan \/ b = S754_nan -> favg a b = S754_nan.
+Proof.
+  intros a b [-> | ->]; unfold favg, fadd, fmul.
+  - reflexivity.
+  - destruct a; reflexivity.
+Qed.
+
+Lemma favg_inf_opposite : forall s, favg (S754_infinity s) (S754_infinity (negb s)) = S754_nan.
+Proof. intros [|]; vm_compute; reflexivity. Qed.
+
+Lemma avg_gen_vol_gen : forall A (f : A -> A -> A) oc fx fy fz (a : arr4 A),
+  avg_gen f oc fx fy fz a = map (V3a f oc fx fy fz) a.
+Proof.
+  intros A f oc fx fy fz a. unfold avg_gen, V3a, V2a, V1a, halve_x, halve_y, halve_z, hx, hy, hz.
+  destruct (fz =? 2); destruct (fy =? 2); destruct (fx =? 2);
+    rewrite ?map_map; try reflexivity; symmetry; apply map_id.
+Qed.
+
+Definition fzero : spec_float := S754_zero false.
+
+(* the float64 contributors of output voxel (c, z, y, x): padded reads of the
+   chunk converted to float64 *)
+Definition contributor (o : option spec_float) (nz ny nx : nat) (a : arr4 num) (c : nat)
+           (z y x : nat) : spec_float :=
+  PGa fzero o (nth c (map4 to_f64 a) []) nz ny nx z y x.
+
+(* C07, non-finite voxels on the float32 path (float32 -> float64, pairwise
+   averaging, float64 -> float32): if all contributors of a voxel are the same
+   infinity, the voxel is that infinity; if one of them is NaN, it is NaN. *)
+Theorem average_nonfinite : forall o fs nc nz ny nx (a : arr4 num) c z y x,
+  check_factors_avg fs = true -> rect4 nc nz ny nx a ->
+  (forall c0, o = Some c0 -> favg c0 c0 = c0) ->
+  c < nc -> z < cdiv nz (fac fs 2) -> y < cdiv ny (fac fs 1) -> x < cdiv nx (fac fs 0) ->
+  exists out, avg_model F32 o fs a = Ok out /\
+    (forall s,
+       (forall dz dy dx, dz < fac fs 2 -> dy < fac fs 1 -> dx < fac fs 0 ->
+          contributor o nz ny nx a c (z * fac fs 2 + dz) (y * fac fs 1 + dy) (x * fac fs 0 + dx)
+          = S754_infinity s) ->
+       get4 (NI 0%Z) out c z y x = NF (S754_infinity s)) /\
+    ((exists dz dy dx, dz < fac fs 2 /\ dy < fac fs 1 /\ dx < fac fs 0 /\
+          contributor o nz ny nx a c (z * fac fs 2 + dz) (y * fac fs 1 + dy) (x * fac fs 0 + dx)
+          = S754_nan) ->
+       get4 (NI 0%Z) out c z y x = NF S754_nan).
+Proof.
+  intros o fs nc nz ny nx a c z y x Hf Hr Hsame Hc Hz Hy Hx.
+  destruct (check_factors_avg_fac fs Hf) as (Hfx & Hfy & Hfz).
+  set (fx := fac fs 0) in *. set (fy := fac fs 1) in *. set (fz := fac fs 2) in *.
+  unfold avg_model. rewrite Hf. cbn [negb promote dtype_eqb can_cast_safe andb].
+  eexists. split. reflexivity.
+  set (M := map4 to_f64 a).
+  assert (HrM : rect4 nc nz ny nx M) by (apply map4_rect; exact Hr).
+  set (W := avg_f64 o (fac fs 0) (fac fs 1) (fac fs 2) M).
+  assert (HrW : rect4 nc (cdiv nz fz) (cdiv ny fy) (cdiv nx fx) W)
+    by (apply avg_gen_rect; assumption).
+  assert (Hf1 : forall k, k = 1 \/ k = 2 -> 1 <= k) by (intros ? [-> | ->]; lia).
+  pose proof (cdiv_pos nz fz z (Hf1 _ Hfz) Hz) as Pz.
+  pose proof (cdiv_pos ny fy y (Hf1 _ Hfy) Hy) as Py.
+  pose proof (cdiv_pos nx fx x (Hf1 _ Hfx) Hx) as Px.
+  set (vol := nth c M []).
+  assert (Hvol : rect3 nz ny nx vol) by (apply (rect4_vol _ nc); assumption).
+  assert (EG : get4 fzero W c z y x = G3a favg fzero o fx fy fz nz ny nx vol z y x).
+  { unfold W, avg_f64. rewrite avg_gen_vol_gen. unfold get4.
+    assert (Em : nth c (map (V3a favg o fx fy fz) M) [] = V3a favg o fx fy fz vol).
+    { rewrite (nth_indep _ [] (V3a favg o fx fy fz [])) by (rewrite map_length; destruct HrM as [L _]; lia).
+      apply map_nth. }
+    fold fx fy fz. rewrite Em.
+    apply (C3a favg fzero o Hsame fx fy fz Hfx Hfy Hfz nz ny nx vol Hvol Pz Py Px z y x Hz Hy Hx). }
+  rewrite (get4_map4 _ _ (fun x0 => convert_scalar F64 F32 (NF x0)) fzero (NI 0%Z) _ _ _ _ W c z y x HrW Hc Hz Hy Hx).
+  rewrite EG. split.
+  - intros s Hall.
+    assert (E : G3a favg fzero o fx fy fz nz ny nx vol z y x = S754_infinity s).
+    { apply (tree_all favg fzero o fx fy fz Hfx Hfy Hfz nz ny nx vol (fun v => v = S754_infinity s)).
+      - intros a0 b0 -> ->. apply favg_inf.
+      - exact Hall. }
+    rewrite E. reflexivity.
+  - intros Hex.
+    assert (E : G3a favg fzero o fx fy fz nz ny nx vol z y x = S754_nan).
+    { apply (tree_any favg fzero o fx fy fz Hfx Hfy Hfz nz ny nx vol (fun _ => True) (fun _ _ _ _ => I)
+               (fun v => v = S754_nan)).
+      - intros a0 b0 H. apply favg_nan. exact H.
+      - exact Hex. }
+    rewrite E. reflexivity.
+Qed.
+
+(* reading the chunk: float32 infinities and NaN are infinities and NaN in float64,
+   and the final float64 -> float32 conversion keeps them (C11) *)
+Lemma to_f64_nonfinite : forall x, FloatModel.is_finite x = false -> to_f64 (NF x) = x.
+Proof. intros [s|s| |s m e] H; try discriminate H; reflexivity. Qed.
+
+Example average_nonfinite_example :
+  avg_model F32 None [2; 2; 1]%Z
+    [[[[NF (S754_infinity false); NF (S754_infinity false); NF (S754_infinity true)];
+       [NF (S754_infinity false); NF (S754_infinity false); NF (S754_infinity false)]]]]
+  = Ok [[[[NF (S754_infinity false); NF S754_nan]]]]
+  /\ avg_model F32 (Some (of_Z b64 255)) [2; 1; 1]%Z [[[[NF (S754_infinity true)]]]]
+     = Ok [[[[NF (S754_infinity true)]]]]
+  /\ favg (of_Z b64 255) (of_Z b64 255) = of_Z b64 255.
+Proof. repeat split; vm_compute; reflexivity. Qed.
